@@ -264,11 +264,13 @@ def s4(ctx):
                 okst = True
     ctx.check(bool(st) and okst, "stop-reason-from-result", "stop_reason is set from the Err of the chained result", "run_one does not record the Err of the chained result as the stop reason", where_of(ro))
     # check_limits wrapper passes iterations.len()
-    cl = crate.method("run::runner::Runner", "check_limits")
-    if len(cl) == 1:
-        c_ = [c for c in cl[0].calls if c.callee and c.callee.name == "check_limits"]
-        ok = bool(c_) and role_mentions_call(cl[0].role_of_operand(c_[0].args[1]), "len") and role_mentions_field(cl[0].role_of_operand(c_[0].args[1]), "iterations")
-        ctx.check(ok, "iteration-count-source", "the limit check is given iterations.len()", "the limit check is not given the number of completed iterations", where_of(cl[0]))
+    # the limits are given iterations.len(): look at every call of the limits' own check (RunnerLimits::check_limits), wherever the
+    # wrapper around it lives (a method of Runner, or inlined into run_one)
+    lim = [b_ for b_ in crate.by_name.get("check_limits", []) if b_.kind != "Closure" and "RunnerLimits" in (b_.impl_self or "")]
+    sites_ = [(b_, c) for b_ in crate.bodies.values() for c in b_.calls if lim and c.callee and c.callee.target == lim[0].id and not b_.blocks[c.bb]["cleanup"]]
+    if lim:
+        ok = bool(sites_) and all(role_mentions_call(b_.role_of_operand(c.args[1]), "len") and role_mentions_field(b_.role_of_operand(c.args[1]), "iterations") for b_, c in sites_)
+        ctx.check(ok, "iteration-count-source", "the limit check is given iterations.len()", "the limit check is not given the number of completed iterations", where_of(sites_[0][0], sites_[0][1].bb) if sites_ else where_of(lim[0]))
     # Runner::run: loop exits only when stop_reason is Some; one run_one and one push per round
     exits = []
     for sb in rn.switch_blocks():
